@@ -433,6 +433,7 @@ class Engine:
         _KillState.count = 0
         _KillState.dead = False
         _KillState.armed = k
+        exec_before = dict(self.world.exec_count)
         outcome = "completed"
         try:
             self.processor._handle_message(m)
@@ -450,6 +451,13 @@ class Engine:
                 outcome = "killed"
         n = _KillState.count
         _KillState.armed = None
+        if outcome == "killed" and n == 0 and type(m).__name__ == "RunTask":
+            # the task ran but its result never became durable: a task is a function of its inputs, so the
+            # re-execution must behave the same -> the script index counts RECORDED executions only
+            for key, before in exec_before.items():
+                self.world.exec_count[key] = before
+            for key in [k for k in self.world.exec_count if k not in exec_before]:
+                del self.world.exec_count[key]
         self.restart()
         return outcome, n
 
